@@ -75,7 +75,7 @@ def _under_type(h, name, inside=False):
 
 def _opaque_exo(h):
     # (Shelf: its base class mentions int, an occurrence the hand-rewrite on the DSL cannot reach)
-    return (h['k'] == 'exo' and h.get('n') != 'TypedDict') or (h['k'] == 'gen' and h.get('n') == 'Shelf') or any(_opaque_exo(a) for a in h.get('a', []) or [] if isinstance(a, dict))
+    return (h['k'] == 'exo' and h.get('n') != 'TypedDict') or (h['k'] == 'gen' and h.get('n') in ('Shelf', 'IntTable')) or any(_opaque_exo(a) for a in h.get('a', []) or [] if isinstance(a, dict))
 
 
 def _mentions_exo(h, name):
